@@ -5,6 +5,7 @@ import (
 	"fmt"
 	"math/rand"
 	"os"
+	"strings"
 	"time"
 
 	"github.com/B1NARY-GR0UP/originium/pkg/logger"
@@ -41,24 +42,26 @@ func main() {
 		return q
 	}
 	if *replay != "" {
-		os.Exit(doReplay(*suite, *replay))
+		code := doReplay(*suite, *replay, res)
+		writeResult(res, *out, start)
+		os.Exit(code)
 	}
 	switch *suite {
 	case "key":
-		s := Suite{Name: "key", DriverSuite: "key", Exec: keyExec}
+		s := Suite{Name: "key", DriverSuite: "key", Exec: same(keyExec)}
 		res.Rule = "40 random calls of KeyWithTs/ParseKey/ParseTs/CompareKeys/IsSameKey per case on adversarial strings (keys containing '@', non canonical timestamps, overflow); non-trivial = the case contains a raw comparison, a panic path or a same-user versioned comparison"
 		runCases(s, keyGen(r, scale(300, 5000)), res)
 	case "filter":
-		s := Suite{Name: "filter", DriverSuite: "filter", Exec: filterExec}
+		s := Suite{Name: "filter", DriverSuite: "filter", Exec: same(filterExec)}
 		res.Rule = "filter.Build on 1..N entries, Contains of every member and of absent keys, implementation vs model fed with the real murmur3 values; non-trivial = every case (distinct key sets)"
 		runCases(s, filterGen(r, scale(60, 600), scale(400, 5000)), res)
 		filterDims(res, scale(3000, 20000))
 	case "skiplist":
-		s := Suite{Name: "skiplist", DriverSuite: "skiplist", Exec: skipExec}
+		s := Suite{Name: "skiplist", DriverSuite: "skiplist", Exec: same(skipExec)}
 		res.Rule = "random Set/Get/LowerBound/Scan/All/Delete sequences over versioned keys, maxLevel in {1,2,4,9,32}, p in {0.01,0.25,0.5,0.99}; non-trivial = the case overwrites a key, writes a tombstone, scans or deletes an existing key"
 		runCases(s, skipGen(r, scale(120, 2000), scale(120, 300)), res)
 	case "wm":
-		s := Suite{Name: "wm", DriverSuite: "wm", Exec: wmExec}
+		s := Suite{Name: "wm", DriverSuite: "wm", Exec: same(wmExec)}
 		res.Rule = "random Begin/Done sequences on the real WaterMark, DoneUntil compared with the model after every mark (VerifSync), bursts of >100 marks; non-trivial = repeated index, Done without Begin, or burst"
 		runCases(s, wmGen(r, scale(60, 600), scale(80, 200)), res)
 	default:
@@ -73,7 +76,47 @@ func main() {
 	}
 }
 
-func doReplay(suite, path string) int {
-	fmt.Fprintln(os.Stderr, "replay not implemented for", suite, path)
-	return 2
+// suiteByName: the interpreter of each differential suite (for replays and the corpus)
+func suiteByName(name string) (Suite, bool) {
+	switch name {
+	case "key":
+		return Suite{Name: "key", DriverSuite: "key", Exec: same(keyExec)}, true
+	case "filter":
+		return Suite{Name: "filter", DriverSuite: "filter", Exec: same(filterExec)}, true
+	case "skiplist":
+		return Suite{Name: "skiplist", DriverSuite: "skiplist", Exec: same(skipExec)}, true
+	case "wm":
+		return Suite{Name: "wm", DriverSuite: "wm", Exec: same(wmExec)}, true
+	}
+	return moreSuiteByName(name)
+}
+
+// doReplay runs one recorded operation sequence (one op per line) on implementation and model
+func doReplay(suite, path string, res *Result) int {
+	s, ok := suiteByName(suite)
+	if !ok {
+		fmt.Fprintln(os.Stderr, "no replay for suite", suite)
+		return 2
+	}
+	b, err := os.ReadFile(path)
+	if err != nil {
+		fmt.Fprintln(os.Stderr, err)
+		return 2
+	}
+	var ops []string
+	for _, l := range strings.Split(string(b), "\n") {
+		if strings.TrimSpace(l) != "" {
+			ops = append(ops, l)
+		}
+	}
+	res.Rule = "replay of " + path
+	runCases(s, []Case{{Ops: ops, Tags: []string{"replay"}}}, res)
+	for _, m := range res.Mismatches {
+		fmt.Printf("MISMATCH kind=%s op=%q implementation=%q model=%q\n", m.Kind, m.Op, m.Impl, m.Model)
+	}
+	if len(res.Mismatches) > 0 {
+		return 1
+	}
+	fmt.Println("replay: implementation and model agree")
+	return 0
 }
